@@ -48,6 +48,12 @@ def gen(seed, i, tier):
         o["InterpolationPoints"] = 3
     if r.chance(0.5):
         o["InitialDistZoom"] = r.choice([0.7, 1.4])     # relaxation "from any start"
+    if i % 5 == 1:
+        o["InterpolateClamped"] = True          # (a no-op in the CPU kick maps of this tree; a limiter, where implemented, keeps the equilibrium)
+        o["InterpolationPoints"] = 3 if (i // 5) % 2 == 0 else 4
+        o["RenormalizeCharge"] = 1              # a limiter does not conserve charge exactly: renormalised every step the end state is strictly stationary
+    if i % 4 == 2:
+        o["alpha1"] = r.choice([5e-4, -5e-4])   # alpha0/8 (alpha0 is left at its default 4e-3 in these runs): changes the drift by 6e-5 of itself over the bunch - the equilibrium is the same
     if i % 5 == 4:
         o["_steps_per_revolution"] = True           # step size given per revolution (overrides StepsPerTs, which is left at another value)
     return kind, o, e1, target
@@ -62,6 +68,7 @@ def analyse(h, P):
     prof = h["/BunchProfile/data"][:, 0, :].astype(float)
     wake = h["/WakePotential/data"][:, 0, :].astype(float)
     es = h["/EnergySpread/data"][:, 0].astype(float)
+    em = h["/EnergyAverage/data"][:, 0].astype(float)
     a = 2 * math.pi / P["steps"]
     rho = prof[-1]
     WE = wake[-1] * P["delta"]
@@ -74,7 +81,8 @@ def analyse(h, P):
     shape = prof / np.sum(prof, axis=1, keepdims=True)
     stat = float(np.max(np.abs(shape[-5:] - shape[-1])) / np.max(shape[-1])) if prof.shape[0] >= 6 else 9.0
     return dict(rangeR=float(np.ptp(R)), rangeT=float(np.ptp(term[core_sel])), rangeRflip=float(np.ptp(Rflip)), stationarity=stat,
-                spread=float(es[-1]), centroid=float(np.sum(rho * z) / np.sum(rho)))
+                spread=float(es[-1]), centroid=float(np.sum(rho * z) / np.sum(rho)),
+                late_spread_dev=float(np.max(np.abs(es[-5:] - 1))), late_energy_mean=float(np.max(np.abs(em[-5:]))))
 
 
 def run_case(args):
@@ -123,6 +131,13 @@ def run_case(args):
         out["A"] = A
         out["current"] = oo["BunchCurrent"][0]
         w = dict(options=out["opts"], current=oo["BunchCurrent"][0], cmd=" ".join(res["argv"]), **A)
+        # "the energy distribution stays the unit Gaussian": with a weak impedance below threshold this holds at all late times, whether or not
+        # the profile has settled to the stationarity gate (coarse bounds: 5 % on the spread, 0.1 sigma on the mean energy over the last five periods)
+        out["res"]["late_energy_spread_dev_over_0.05"] = A["late_spread_dev"] / 0.05
+        out["res"]["late_mean_energy_over_0.1"] = A["late_energy_mean"] / 0.1
+        out["energy_checked"] = 1
+        if not (A["late_spread_dev"] <= 0.05 and A["late_energy_mean"] <= 0.1):
+            out["viol"].append(("C05:energy_distribution", "with a weak impedance the energy distribution does not stay the unit Gaussian (mean energy / spread over the last five periods)", dict(w)))
         if A["stationarity"] > 5e-4 or not (0.04 <= A["rangeT"] <= 1.6):
             out["incon"].append("not stationary / wake term out of window: stationarity=%.2g wake term range=%.3g" % (A["stationarity"], A["rangeT"]))
             return out
@@ -157,8 +172,15 @@ def run(ctx):
     for res in core.pmap(run_case, [(ctx, i, sdir, pool) for i in range(n)]):
         for x in res["incon"]:
             ctx.inconcl("case %d (%s): %s" % (res["i"], res["kind"], x))
+        if res.get("energy_checked") and not res.get("judged"):
+            ctx.ev("late_energy_distributions_checked")
+            for k, v in res["res"].items():
+                ctx.residual(k, v, 1.0)
+            for key, what, det in res["viol"]:
+                ctx.violation(key, what, det)
         if not res.get("judged"):
             continue
+        ctx.ev("late_energy_distributions_checked")
         ctx.case("c05:%s" % sorted(res["opts"].items()))
         ctx.ev("equilibria_judged")
         ctx.ev("equilibria." + res["kind"])
